@@ -49,10 +49,14 @@ Proof. intros H. rewrite forallb_forall in *. intros x Hx. apply in_map_iff in H
 Lemma map_cn_nocdata ks : forallb (nocdata) (map cn ks) = true.
 Proof. apply forallb_forall. intros x Hx. apply in_map_iff in Hx as [y [<- Hy]]. apply canon_nocdata. Qed.
 Lemma good_cn_section q ks : forallb is_element ks = true -> good_section (cn (Elem q [] ks)).
-Proof. intros H. rewrite (cn_section q ks H). exists q, [], (map cn ks). split; [reflexivity|]. split; [now apply map_cn_elems|apply map_cn_nocdata]. Qed.
+Proof. intros H. rewrite (cn_section q ks H). intros q' a' ks' E. injection E as _ _ <-. apply map_cn_nocdata. Qed.
+Lemma keep_cn ks : forallb is_element ks = true -> keep (map cn ks) = map cn ks.
+Proof. intros H. apply keep_elems. now apply map_cn_elems. Qed.
 Lemma cn_auto_kids q u : forallb is_element u = true -> cn (Elem q [] (auto_kids u)) = Elem q [] (map cn u).
 Proof. intros H. destruct u as [|x r]; [reflexivity|]. cbn [auto_kids]. now apply cn_section. Qed.
 
+Lemma opt_kid_elem t y : In y (opt_kid t) -> y = t.
+Proof. unfold opt_kid. destruct (has_kids t); [intros [H|[]]; now symmetry|intros []]. Qed.
 Lemma used_elements segs auto : forallb is_element (kids_of auto) = true -> forallb is_element (used_auto_styles RA segs auto) = true.
 Proof.
   intros H. rewrite forallb_forall in *. intros e He. apply H. now apply (written_styles_are_the_documents RA segs auto).
@@ -71,7 +75,7 @@ Lemma R_s_auto : route PnStyles (q_off "automatic-styles") = Some SAuto. Proof. 
 Lemma R_s_master : route PnStyles (q_off "master-styles") = Some SMaster. Proof. vm_compute. reflexivity. Qed.
 Lemma q_auto_eq : q_autostyles = q_off "automatic-styles". Proof. reflexivity. Qed.
 
-Lemma sec_apply_some pn d q a ks s : route pn q = Some s -> sec_apply pn d (Elem q a ks) = add_to d s ks.
+Lemma sec_apply_some pn d q a ks s : route pn q = Some s -> sec_apply pn d (Elem q a ks) = add_to d s (keep ks).
 Proof. intros H. unfold sec_apply. now rewrite H. Qed.
 Lemma sec_apply_none pn d q a ks : route pn q = None -> sec_apply pn d (Elem q a ks) = d.
 Proof. intros H. unfold sec_apply. now rewrite H. Qed.
@@ -85,8 +89,9 @@ Proof.
   { unfold secs_content. rewrite Esc, Eff, Ebo. unfold opt_kid, has_kids. cbn [kids_of].
     destruct ksc as [|x1 r1], kff as [|x2 r2]; cbn [app map]; repeat constructor; try (now apply good_cn_section). }
   eexists. eexists. split; [|exact G]. unfold content_tree. unfold cn at 1. cbn [canon]. fold cn. f_equal.
-  unfold secs_content. apply merge_text_elems. fold (secs_content d).
-  apply forallb_forall. intros x Hx. rewrite Forall_forall in G. destruct (G x Hx) as (q & a & ks & -> & _). reflexivity.
+  unfold secs_content. apply merge_text_elems. apply forallb_forall. intros x Hx. apply in_map_iff in Hx as [y [<- Hy]].
+  unfold cn. rewrite canon_is_element. rewrite Esc, Eff, Ebo in Hy.
+  repeat (apply in_app_or in Hy as [Hy|Hy]); try (apply opt_kid_elem in Hy; subst y; reflexivity). destruct Hy as [<-|[<-|[]]]; reflexivity.
 Qed.
 Lemma part_styles d : sections_ok d -> exists q a, cn (styles_tree RA d) = Elem q a (secs_styles d) /\ Forall good_section (secs_styles d).
 Proof.
@@ -99,7 +104,9 @@ Proof.
   rewrite !map_app. cbn [map]. fold (used_s d). rewrite (cn_auto_kids _ _ Hu), <- (cn_section _ _ Hu).
   replace (map cn (opt_kid (d_ffd d)) ++ [cn (d_styles d)] ++ [cn (Elem q_autostyles [] (used_s d))] ++ map cn (opt_kid (d_master d))) with (secs_styles d)
     by (unfold secs_styles; rewrite !map_app; reflexivity).
-  apply merge_text_elems. apply forallb_forall. intros x Hx. rewrite Forall_forall in G. destruct (G x Hx) as (q & a & ks & -> & _). reflexivity.
+  apply merge_text_elems. apply forallb_forall. intros x Hx. unfold secs_styles in Hx. apply in_map_iff in Hx as [y [<- Hy]].
+  unfold cn. rewrite canon_is_element. rewrite Eff, Est, Ema in Hy.
+  repeat (apply in_app_or in Hy as [Hy|Hy]); try (apply opt_kid_elem in Hy; subst y; reflexivity); destruct Hy as [<-|[]]; reflexivity.
 Qed.
 Lemma part_meta d : sections_ok d -> exists q a, cn (meta_tree tv d) = Elem q a (secs_meta d) /\ Forall good_section (secs_meta d).
 Proof.
@@ -110,7 +117,7 @@ Proof.
   { rewrite forallb_app. cbn. rewrite andb_true_r. rewrite forallb_forall in *. intros x Hx. apply filter_In in Hx as [Hx _]. now apply Hme. }
   assert (G : Forall good_section (secs_meta d)) by (unfold secs_meta; rewrite E; repeat constructor; now apply good_cn_section).
   eexists. eexists. split; [|exact G]. unfold meta_tree. unfold cn at 1. cbn [canon map]. fold cn. f_equal.
-  fold (secs_meta d). apply merge_text_elems. apply forallb_forall. intros x Hx. rewrite Forall_forall in G. destruct (G x Hx) as (q & a & ks & -> & _). reflexivity.
+  fold (secs_meta d). apply merge_text_elems. unfold secs_meta. rewrite E. reflexivity.
 Qed.
 Lemma part_settings d : sections_ok d -> has_kids (d_settings d) = true ->
   exists q a, cn (settings_tree d) = Elem q a (secs_settings d) /\ Forall good_section (secs_settings d).
@@ -119,7 +126,7 @@ Proof.
   assert (G : Forall good_section (secs_settings d)) by (unfold secs_settings; rewrite Hk, Ese; repeat constructor; now apply good_cn_section).
   eexists. eexists. split; [|exact G]. unfold settings_tree. unfold cn at 1. cbn [canon map]. fold cn. f_equal.
   replace [cn (d_settings d)] with (secs_settings d) by (unfold secs_settings; now rewrite Hk).
-  apply merge_text_elems. apply forallb_forall. intros x Hx. rewrite Forall_forall in G. destruct (G x Hx) as (q & a & ks & -> & _). reflexivity.
+  apply merge_text_elems. unfold secs_settings. rewrite Hk, Ese. reflexivity.
 Qed.
 
 Definition routed (d : odfdoc) : odfdoc :=
@@ -168,7 +175,7 @@ Lemma opt_fold pn d q ks s : route pn q = Some s -> forallb is_element ks = true
   fold_left (sec_apply pn) (map cn (opt_kid (Elem q [] ks))) d = match ks with [] => d | _ => add_to d s (map cn ks) end.
 Proof.
   intros R H. unfold opt_kid, has_kids. cbn [kids_of]. destruct ks as [|x r]; [reflexivity|].
-  cbn [map fold_left]. rewrite (cn_section q (x :: r) H). now apply sec_apply_some.
+  cbn [map fold_left]. rewrite (cn_section q (x :: r) H), (sec_apply_some pn d q [] _ s R), (keep_cn _ H). reflexivity.
 Qed.
 Lemma opt_fold_none pn d q ks : route pn q = None -> forallb is_element ks = true ->
   fold_left (sec_apply pn) (map cn (opt_kid (Elem q [] ks))) d = d.
@@ -189,17 +196,17 @@ Proof.
   (* settings.xml *)
   assert (S1 : fold_left (sec_apply PnSettings) (secs_settings d) (empty_doc (d_mime d)) = D0 (d_mime d) [] [] [] (map cn kse) [] [] [] []).
   { unfold secs_settings. rewrite Ese. unfold has_kids. cbn [kids_of]. destruct kse as [|x r]; [reflexivity|].
-    cbn [fold_left]. rewrite (cn_section _ _ Hse), (sec_apply_some PnSettings _ (q_off "settings") [] _ SSettings R_set). reflexivity. }
+    cbn [fold_left]. rewrite (cn_section _ _ Hse), (sec_apply_some PnSettings _ (q_off "settings") [] _ SSettings R_set), (keep_cn _ Hse). reflexivity. }
   (* meta.xml *)
   assert (S2 : fold_left (sec_apply PnMeta) (secs_meta d) (D0 (d_mime d) [] [] [] (map cn kse) [] [] [] []) = D0 (d_mime d) (map cn gm) [] [] (map cn kse) [] [] [] []).
-  { unfold secs_meta. rewrite Emeta. cbn [fold_left]. rewrite (cn_section _ _ Hmeta), (sec_apply_some PnMeta _ (q_off "meta") [] _ SMeta R_meta). reflexivity. }
+  { unfold secs_meta. rewrite Emeta. cbn [fold_left]. rewrite (cn_section _ _ Hmeta), (sec_apply_some PnMeta _ (q_off "meta") [] _ SMeta R_meta), (keep_cn _ Hmeta). reflexivity. }
   (* content.xml *)
   assert (S3 : fold_left (sec_apply PnContent) (secs_content d) (D0 (d_mime d) (map cn gm) [] [] (map cn kse) [] [] [] []) =
                D0 (d_mime d) (map cn gm) (map cn ksc) [] (map cn kse) [] (map cn (used_c d)) [] (map cn kbo)).
   { unfold secs_content. rewrite Esc, Eff, Ebo, !map_app, !fold_left_app.
     rewrite (opt_fold PnContent _ (q_off "scripts") ksc SScripts R_c_scripts Hsc), (opt_fold_none PnContent _ (q_off "font-face-decls") kff R_c_ffd Hff).
     cbn [map fold_left]. rewrite q_auto_eq, (cn_section _ _ Huc), (cn_section _ _ Hbo).
-    rewrite (sec_apply_some PnContent _ (q_off "automatic-styles") [] _ SAuto R_c_auto), (sec_apply_some PnContent _ (q_off "body") [] _ SBody R_c_body).
+    rewrite (sec_apply_some PnContent _ (q_off "automatic-styles") [] _ SAuto R_c_auto), (sec_apply_some PnContent _ (q_off "body") [] _ SBody R_c_body), (keep_cn _ Huc), (keep_cn _ Hbo).
     destruct ksc as [|x r]; reflexivity. }
   (* styles.xml *)
   assert (S4 : fold_left (sec_apply PnStyles) (secs_styles d) (D0 (d_mime d) (map cn gm) (map cn ksc) [] (map cn kse) [] (map cn (used_c d)) [] (map cn kbo)) =
@@ -207,7 +214,7 @@ Proof.
   { unfold secs_styles. rewrite Eff, Est, Ema, !map_app, !fold_left_app.
     rewrite (opt_fold PnStyles _ (q_off "font-face-decls") kff SFfd R_s_ffd Hff).
     cbn [map fold_left]. rewrite q_auto_eq, (cn_section _ _ Hst), (cn_section _ _ Hus).
-    rewrite (sec_apply_some PnStyles _ (q_off "styles") [] _ SStyles R_s_styles), (sec_apply_some PnStyles _ (q_off "automatic-styles") [] _ SAuto R_s_auto).
+    rewrite (sec_apply_some PnStyles _ (q_off "styles") [] _ SStyles R_s_styles), (sec_apply_some PnStyles _ (q_off "automatic-styles") [] _ SAuto R_s_auto), (keep_cn _ Hst), (keep_cn _ Hus).
     rewrite (opt_fold PnStyles _ (q_off "master-styles") kma SMaster R_s_master Hma).
     destruct kff as [|x r], kma as [|y r2]; reflexivity. }
   unfold routed. rewrite S1, S2, S3, S4. unfold expected. rewrite Emeta, Esc, Eff, Ese, Est, Ema, Ebo. reflexivity.
@@ -270,3 +277,89 @@ Qed.
 Example ex_runs :
   i_load_doc (d_mime ex_d) None (xml_parse (snd (i_metaxml ex_env ex_d))) (xml_parse (i_contentxml ex_env ex_d)) (xml_parse (i_stylesxml ex_env ex_d)) = expected ex_d.
 Proof. vm_compute. reflexivity. Qed.
+
+(* ================= C05: any package ================= *)
+Definition secs_of (p : option node) : list node := match p with Some (Elem _ _ secs) => secs | _ => [] end.
+Definition part_ok (p : option node) : Prop := Forall good_section (secs_of p).
+Definition any_regs (se me co st : option node) : list str :=
+  flat_map (sec_regs PnSettings) (secs_of se) ++ flat_map (sec_regs PnMeta) (secs_of me) ++
+  flat_map (sec_regs PnContent) (secs_of co) ++ flat_map (sec_regs PnStyles) (secs_of st).
+Definition loaded_any (mime : str) (se me co st : option node) : odfdoc :=
+  fold_left (sec_apply PnStyles) (secs_of st) (fold_left (sec_apply PnContent) (secs_of co)
+    (fold_left (sec_apply PnMeta) (secs_of me) (fold_left (sec_apply PnSettings) (secs_of se) (empty_doc mime)))).
+
+Lemma load_part_secs pn acc p : load_part i_redirected pn acc p = fold_left (load_section i_redirected pn) (secs_of p) acc.
+Proof. destruct p as [[q a secs|t|t]|]; reflexivity. Qed.
+
+(* whatever the parts hold - any root, any order and number of sections, text between them, unknown elements - as long as
+   no registered style name occurs twice *)
+Theorem load_any mime se me co st : part_ok se -> part_ok me -> part_ok co -> part_ok st -> NoDup (any_regs se me co st) ->
+  i_load_doc mime se me co st = loaded_any mime se me co st.
+Proof.
+  intros G1 G2 G3 G4 Hd. unfold i_load_doc, load_doc, loaded_any, any_regs in *. rewrite !load_part_secs.
+  set (n1 := flat_map (sec_regs PnSettings) (secs_of se)) in *. set (n2 := flat_map (sec_regs PnMeta) (secs_of me)) in *.
+  set (n3 := flat_map (sec_regs PnContent) (secs_of co)) in *. set (n4 := flat_map (sec_regs PnStyles) (secs_of st)) in *.
+  rewrite (load_sections_id i_redirected PnSettings (secs_of se) s0 _ (eq_refl : ls_fix s0 = []) G1) by (cbn [ls_names s0 app]; fold n1; now apply NoDup_app_l in Hd).
+  cbn [ls_names s0 app]. fold n1.
+  rewrite (load_sections_id i_redirected PnMeta (secs_of me) (mkLS n1 []) _ eq_refl G2) by (cbn [ls_names]; fold n2; rewrite app_assoc in Hd; now apply NoDup_app_l in Hd).
+  cbn [ls_names]. fold n2.
+  rewrite (load_sections_id i_redirected PnContent (secs_of co) (mkLS (n1 ++ n2) []) _ eq_refl G3)
+    by (cbn [ls_names]; fold n3; rewrite <- app_assoc; rewrite !app_assoc in Hd; apply NoDup_app_l in Hd; now rewrite <- !app_assoc in Hd).
+  cbn [ls_names]. fold n3.
+  rewrite (load_sections_id i_redirected PnStyles (secs_of st) (mkLS ((n1 ++ n2) ++ n3) []) _ eq_refl G4) by (cbn [ls_names]; fold n4; now rewrite <- !app_assoc).
+  reflexivity.
+Qed.
+
+(* what each section of the loaded document holds: the kept children of the source sections routed to it, in load order *)
+Definition get_sec (s : secid) (d : odfdoc) : node :=
+  match s with SMeta => d_meta d | SScripts => d_scripts d | SFfd => d_ffd d | SSettings => d_settings d
+             | SStyles => d_styles d | SAuto => d_auto d | SMaster => d_master d | SBody => d_body d end.
+Definition secid_eqb (a b : secid) : bool :=
+  match a, b with SMeta, SMeta | SScripts, SScripts | SFfd, SFfd | SSettings, SSettings | SStyles, SStyles | SAuto, SAuto | SMaster, SMaster | SBody, SBody => true | _, _ => false end.
+Definition kids_routed (pn : partname) (sid : secid) (secs : list node) : list node :=
+  flat_map (fun sec => match sec with
+                       | Elem q _ ks => match route pn q with Some s => if secid_eqb s sid then keep ks else [] | None => [] end
+                       | _ => [] end) secs.
+Lemma get_add sid d s ks : get_sec sid (add_to d s ks) = if secid_eqb s sid then add_kids (get_sec sid d) ks else get_sec sid d.
+Proof. destruct sid, s; reflexivity. Qed.
+Lemma add_kids_app t a b : add_kids (add_kids t a) b = add_kids t (a ++ b).
+Proof. destruct t; cbn; [now rewrite app_assoc|reflexivity|reflexivity]. Qed.
+Lemma add_kids_nil' t : is_element t = true -> add_kids t [] = t.
+Proof. destruct t; try discriminate. intros _. cbn. now rewrite app_nil_r. Qed.
+Lemma is_element_add t ks : is_element (add_kids t ks) = is_element t.
+Proof. destruct t; reflexivity. Qed.
+Lemma fold_apply_section pn sid secs : forall d, is_element (get_sec sid d) = true ->
+  get_sec sid (fold_left (sec_apply pn) secs d) = add_kids (get_sec sid d) (kids_routed pn sid secs).
+Proof.
+  induction secs as [|sec r IH]; intros d He; cbn [fold_left kids_routed flat_map].
+  - now rewrite add_kids_nil'.
+  - fold (kids_routed pn sid r). destruct sec as [q a ks|t|t]; cbn [sec_apply]; try (cbn [app]; now apply IH).
+    destruct (route pn q) as [s|]; [|cbn [app]; now apply IH].
+    rewrite IH by (rewrite get_add; destruct (secid_eqb s sid); [now rewrite is_element_add|exact He]).
+    rewrite get_add. destruct (secid_eqb s sid); [now rewrite add_kids_app|reflexivity].
+Qed.
+
+Theorem loaded_section mime se me co st sid :
+  get_sec sid (loaded_any mime se me co st) =
+  Elem (sec_q sid) [] (kids_routed PnSettings sid (secs_of se) ++ kids_routed PnMeta sid (secs_of me) ++
+                      kids_routed PnContent sid (secs_of co) ++ kids_routed PnStyles sid (secs_of st)).
+Proof.
+  unfold loaded_any.
+  assert (E0 : get_sec sid (empty_doc mime) = Elem (sec_q sid) [] []) by (destruct sid; reflexivity).
+  assert (H1 : is_element (get_sec sid (empty_doc mime)) = true) by (now rewrite E0).
+  pose proof (fold_apply_section PnSettings sid (secs_of se) _ H1) as F1.
+  assert (H2 : is_element (get_sec sid (fold_left (sec_apply PnSettings) (secs_of se) (empty_doc mime))) = true) by (now rewrite F1, is_element_add).
+  pose proof (fold_apply_section PnMeta sid (secs_of me) _ H2) as F2.
+  assert (H3 : is_element (get_sec sid (fold_left (sec_apply PnMeta) (secs_of me) (fold_left (sec_apply PnSettings) (secs_of se) (empty_doc mime)))) = true) by (now rewrite F2, is_element_add).
+  pose proof (fold_apply_section PnContent sid (secs_of co) _ H3) as F3.
+  assert (H4 : is_element (get_sec sid (fold_left (sec_apply PnContent) (secs_of co) (fold_left (sec_apply PnMeta) (secs_of me) (fold_left (sec_apply PnSettings) (secs_of se) (empty_doc mime))))) = true) by (now rewrite F3, is_element_add).
+  rewrite (fold_apply_section PnStyles sid (secs_of st) _ H4), F3, F2, F1, E0, !add_kids_app. reflexivity.
+Qed.
+
+(* the font declarations of content.xml never reach the document; those of styles.xml do *)
+Theorem content_font_decls_skipped q a ks : qname_eqb q (q_off "font-face-decls") = true -> kids_routed PnContent SFfd [Elem q a ks] = [].
+Proof.
+  intros H. apply XmlResolveProofs.qname_eqb_eq in H. subst q. cbn [kids_routed flat_map]. rewrite R_c_ffd. reflexivity.
+Qed.
+Theorem styles_font_decls_kept a ks : kids_routed PnStyles SFfd [Elem (q_off "font-face-decls") a ks] = keep ks.
+Proof. cbn [kids_routed flat_map]. rewrite R_s_ffd. cbn [secid_eqb]. apply app_nil_r. Qed.
